@@ -30,6 +30,10 @@ impl PanicInfo {
     pub fn in_harness(&self) -> bool {
         self.message.contains("HARNESS:")
     }
+    /// the honest adapter's work limit was reached (harness protection; the case is discarded)
+    pub fn is_budget(&self) -> bool {
+        self.message.contains(crate::adapter::BUDGET_MARKER)
+    }
     /// location without line number (stable across edits): file name only
     pub fn file(&self) -> String {
         let f = self.location.rsplit('/').next().unwrap_or("");
@@ -120,6 +124,8 @@ pub enum ExecOutcome {
     ArgError(String),
     /// panic, together with the rows produced before it
     Panic(PanicInfo, usize),
+    /// the honest adapter's work limit was reached: not an outcome of the engine, the case is discarded
+    Budget,
 }
 
 /// Executes to exhaustion (or to `limit` rows) on the given adapter.
@@ -147,6 +153,7 @@ pub fn execute<'a, A: Adapter<'a> + 'a>(
     match r {
         Ok(None) => ExecOutcome::Rows(rows),
         Ok(Some(e)) => ExecOutcome::ArgError(e),
+        Err(p) if p.is_budget() => ExecOutcome::Budget,
         Err(p) => ExecOutcome::Panic(p, rows.len()),
     }
 }
